@@ -713,6 +713,22 @@ func c08Maps(r *Run, m *ServerModel) {
 				if id, ok := c.Fun.(*ast.Ident); ok && id.Name == "delete" && len(c.Args) == 2 && strings.HasSuffix(res.str(c.Args[0]), ".childNodes") {
 					det = true
 				}
+				// ... or a private method of the node that the pinned tree does not have does it
+				// for the same name (p.removePathNodeLocked(name))
+				if tf := r.L.FuncOf(callee(info, c)); tf != nil && tf != fi && tf.Decl.Body != nil && tf.Decl.Recv != nil && !tf.Obj.Exported() && !pinnedFuncs[tf.Key] && len(c.Args) == 1 && len(tf.Decl.Type.Params.List) == 1 && len(tf.Decl.Type.Params.List[0].Names) == 1 {
+					if sel, isSel := unparen(c.Fun).(*ast.SelectorExpr); isSel && res.str(sel.X) == fi.Decl.Recv.List[0].Names[0].Name && res.str(c.Args[0]) == fi.Decl.Type.Params.List[0].Names[0].Name {
+						tres := newResolver(r.L, info, tf.Decl)
+						pn := tf.Decl.Type.Params.List[0].Names[0].Name
+						ast.Inspect(tf.Decl.Body, func(n2 ast.Node) bool {
+							if c2, ok := n2.(*ast.CallExpr); ok {
+								if id, ok := c2.Fun.(*ast.Ident); ok && id.Name == "delete" && len(c2.Args) == 2 && strings.HasSuffix(tres.str(c2.Args[0]), ".childNodes") && tres.str(c2.Args[1]) == pn {
+									det = true
+								}
+							}
+							return true
+						})
+					}
+				}
 			}
 			return true
 		})
